@@ -138,6 +138,11 @@ def build(cfg):
     rc = cfg.get("remove_com")
     run_kw = dict(steps=int(cfg["steps"]), reuse_P=bool(cfg.get("reuse_P", True)),
                   remove_com=(tuple(rc) if rc else None), seed=int(cfg.get("seed", 0)))
+    # optional run options that Molecular_Dynamics_Basic.run takes as keyword arguments
+    if cfg.get("scale_vel"):
+        run_kw["scale_vel"] = tuple(cfg["scale_vel"])
+    if cfg.get("control_energy_shift"):
+        run_kw["control_energy_shift"] = True
     return md, molecule, run_kw
 
 
@@ -363,29 +368,57 @@ def inspect_checkpoint(path):
     out["has_charge"] = bool(names & {"tot_charge", "charges", "charge", "total_charge"})
     out["has_mult"] = bool(names & {"mult", "multiplicity"})
     out["has_orbitals"] = bool(torch.is_tensor(mk.get("molecular_orbitals")))
+
+    def keys_deep(d, depth=0):
+        for k, v in d.items():
+            yield str(k)
+            if isinstance(v, dict) and depth < 3:
+                yield from keys_deep(v, depth + 1)
+    deep = list(keys_deep(ck))
+    out["has_scale_vel"] = any("scale_vel" in k for k in deep)
+    out["has_energy_shift"] = any("energy_shift" in k for k in deep)
     return out
 
 
 # =====================================================================================
 # 3. parent side: child runners
 # =====================================================================================
-def _wait(pid, timeout, kill_after=None):
-    """-> (exit code or -signal, timed_out, killed_by_us)"""
+def _count_lines(path):
+    try:
+        with open(path, "rb") as f:
+            return f.read().count(b"\n")
+    except OSError:
+        return 0
+
+
+def _wait(pid, timeout, kill_after=None, kill_at=None):
+    """-> (exit code or -signal, timed_out, killed_by_us).
+    kill_after: seconds after the fork at which SIGKILL is sent.
+    kill_at: (events_path, n_lines, delay): SIGKILL `delay` seconds after the child's event log reached n_lines
+    lines - a random instant that does not depend on how loaded the machine is."""
     t0 = time.time()
     killed = False
+    t_trigger = None
     while True:
         p, status = os.waitpid(pid, os.WNOHANG)
         if p == pid:
             if os.WIFSIGNALED(status):
                 return -os.WTERMSIG(status), False, killed
             return os.WEXITSTATUS(status), False, killed
-        el = time.time() - t0
-        if kill_after is not None and not killed and el >= kill_after:
-            try:
-                os.kill(pid, signal.SIGKILL)
-            except ProcessLookupError:
-                pass
-            killed = True
+        now = time.time()
+        el = now - t0
+        if not killed:
+            fire = kill_after is not None and el >= kill_after
+            if kill_at is not None:
+                if t_trigger is None and _count_lines(kill_at[0]) >= kill_at[1]:
+                    t_trigger = now
+                fire = fire or (t_trigger is not None and now - t_trigger >= kill_at[2])
+            if fire:
+                try:
+                    os.kill(pid, signal.SIGKILL)
+                except ProcessLookupError:
+                    pass
+                killed = True
         if el > timeout:
             try:
                 os.kill(pid, signal.SIGKILL)
@@ -393,10 +426,10 @@ def _wait(pid, timeout, kill_after=None):
                 pass
             os.waitpid(pid, 0)
             return None, True, killed
-        time.sleep(0.002 if el < 1.0 else 0.01)
+        time.sleep(0.001 if (kill_at is not None and not killed) else (0.002 if el < 1.0 else 0.01))
 
 
-def fork_child(job, timeout=300.0, kill_after=None):
+def fork_child(job, timeout=300.0, kill_after=None, kill_at=None):
     """Run `job` in a forked child of this (worker) process.  The worker itself must never have
     exercised torch kernels / opened HDF5 files at fork time beyond plain reads."""
     sys.stdout.flush()
@@ -407,7 +440,9 @@ def fork_child(job, timeout=300.0, kill_after=None):
             child_main(job)
         finally:
             os._exit(99)
-    code, timed_out, killed = _wait(pid, timeout, kill_after)
+    if kill_at is not None:
+        kill_at = (job["events"], kill_at[0], kill_at[1])
+    code, timed_out, killed = _wait(pid, timeout, kill_after, kill_at)
     return {"code": code, "timed_out": timed_out, "killed": killed}
 
 
